@@ -788,24 +788,35 @@ class Learner2D(BaseLearner):
         points = list(self._stack.keys())
         loss_improvements = list(self._stack.values())
         n_left = n - len(points)
+        n_stack = len(points)
         # Points that are pending already stay pending when tell_pending is False.
         was_pending = None if tell_pending else set(self.pending_points)
         for p in points[:n]:
             self.tell_pending(p)
 
-        while n_left > 0:
-            # The while loop is needed because `stack_till` could be larger
-            # than the number of triangles between the points. Therefore
-            # it could fill up till a length smaller than `stack_till`.
-            new_points, new_loss_improvements = self._fill_stack(
-                stack_till=max(n_left, self.stack_size)
-            )
-            for p in new_points[:n_left]:
-                self.tell_pending(p)
-            n_left -= len(new_points)
+        try:
+            while n_left > 0:
+                # The while loop is needed because `stack_till` could be larger
+                # than the number of triangles between the points. Therefore
+                # it could fill up till a length smaller than `stack_till`.
+                new_points, new_loss_improvements = self._fill_stack(
+                    stack_till=max(n_left, self.stack_size)
+                )
+                for p in new_points[:n_left]:
+                    self.tell_pending(p)
+                n_left -= len(new_points)
 
-            points += new_points
-            loss_improvements += new_loss_improvements
+                points += new_points
+                loss_improvements += new_loss_improvements
+        except Exception:
+            if not tell_pending:
+                # The request failed: take back the marks made so far.
+                self._stack = OrderedDict(
+                    zip(points[:n_stack], loss_improvements[:n_stack])
+                )
+                self.pending_points = was_pending
+                self._ip_combined = None
+            raise
 
         if not tell_pending:
             self._stack = OrderedDict(zip(points[: self.stack_size], loss_improvements))
